@@ -444,6 +444,11 @@ func (x *Exec) globalCell(st *State, g *ssa.Global) *Cell {
 	}
 	if _, ok := st.cells[c]; !ok {
 		st.cells[c] = x.globalInitVal(st, g)
+		// remembered for the frame check: a package-level variable is part of what a read-only
+		// operation must leave as it was
+		if tv, isTV := st.cells[c].(TV); isTV {
+			st.ghost[fmt.Sprintf("ginit:%d", c.id)] = tv
+		}
 	}
 	return c
 }
